@@ -7,8 +7,12 @@ import (
 	"errors"
 	"fmt"
 	"io"
+	"net/http"
+	"net/http/httptest"
+	"net/url"
 	"os"
 	"path/filepath"
+	"sync/atomic"
 	"time"
 
 	"github.com/fido-device-onboard/go-fdo"
@@ -181,6 +185,122 @@ func c17SeqRun(abort int, copyMv bool, first, file []byte) string {
 		return fmt.Sprintf("content-differs: destination holds %d bytes (sha384 %x…), announced and sent were %d bytes; TO2 succeeded", len(got), hs[:6], len(file))
 	}
 	if ents, _ := os.ReadDir(tmp); len(ents) != 0 {
+		return fmt.Sprintf("temp-left: %d temporary file(s) remain after a successful transfer", len(ents))
+	}
+	return ""
+}
+
+// c17WgetDropped: the HTTP connection of an fdo.wget transfer is cut after the response headers and part of the body
+// (once; a second request is served in full). Whatever the device module does about it — fail, or fetch again — the
+// outcome is one of the two the property allows: the announced file, whole, at its name, or a reported failure with
+// nothing at the destination.
+func c17WgetDropped(x *runCtx) {
+	r := gen.Rand(x.seed + 1718)
+	sizes := []int{1500, 70000}
+	if x.thorough() {
+		sizes = append(sizes, 1, 4096, 300000, 1<<20)
+	}
+	for _, size := range sizes {
+		for _, withSum := range []bool{true, false} {
+			file := make([]byte, size)
+			for i := range file {
+				file[i] = byte(r.IntN(256))
+			}
+			cut := 1 + r.IntN(size)
+			if cut >= size {
+				cut = size - 1
+			}
+			if cut < 1 {
+				cut = 1
+			}
+			input := fmt.Sprintf("fdo.wget of %d bytes (checksum announced: %v); the first connection is cut after %d body bytes, a second request is served in full", size, withSum, cut)
+			res := c17WgetDropRun(file, cut, withSum)
+			x.r.Case(fmt.Sprintf("c17wget-drop:%d:%v", size, withSum), true, "sequence:wget-connection-dropped")
+			if res != "" {
+				x.r.Violate(rep.Violation{Kind: "oracle", Check: "C17.sequence", Signature: "C17.seq.wget-connection-dropped:" + c17SeqClass(res),
+					Input: input, Impl: res, PropertyFails: true})
+			}
+		}
+	}
+}
+
+func c17WgetDropRun(file []byte, cut int, withSum bool) (res string) {
+	defer func() {
+		if p := recover(); p != nil {
+			res = fmt.Sprintf("panic: %v", p)
+		}
+	}()
+	root, err := os.MkdirTemp("", "c17w_")
+	if err != nil {
+		fatal("mkdtemp: %v", err)
+	}
+	defer os.RemoveAll(root)
+	dest, tmp := filepath.Join(root, "dest"), filepath.Join(root, "tmp")
+	_ = os.Mkdir(dest, 0o755)
+	_ = os.Mkdir(tmp, 0o755)
+	var served atomic.Int32
+	srv := httptest.NewServer(http.HandlerFunc(func(w http.ResponseWriter, req *http.Request) {
+		if served.Add(1) == 1 {
+			hj, ok := w.(http.Hijacker)
+			if !ok {
+				return
+			}
+			conn, buf, err := hj.Hijack()
+			if err != nil {
+				return
+			}
+			fmt.Fprintf(buf, "HTTP/1.1 200 OK\r\nContent-Type: application/octet-stream\r\nContent-Length: %d\r\n\r\n", len(file))
+			_, _ = buf.Write(file[:cut])
+			_ = buf.Flush()
+			_ = conn.Close()
+			return
+		}
+		w.Header().Set("Content-Type", "application/octet-stream")
+		_, _ = w.Write(file)
+	}))
+	defer srv.Close()
+	u, _ := url.Parse(srv.URL + "/f.bin")
+	ctx, cancel := context.WithTimeout(context.Background(), 100*time.Second)
+	defer cancel()
+	dev := &fsim.Wget{CreateTemp: func() (*os.File, error) { return os.CreateTemp(tmp, "t_*") },
+		NameToPath: func(n string) string { return filepath.Join(dest, n) }, Timeout: 20 * time.Second}
+	cmd := &fsim.WgetCommand{Name: "f.bin", URL: u, Length: int64(len(file))}
+	if withSum {
+		s := sha512.Sum384(file)
+		cmd.Checksum = s[:]
+	}
+	st := lab.NewMemState()
+	w := lab.NewWorld(st)
+	w.Reuse = true
+	w.Modules = func(context.Context, []string) []lab.NamedModule {
+		return []lab.NamedModule{{Name: "fdo.wget", Mod: cmd}}
+	}
+	k := lab.KindByName("P-256")
+	d, err := w.NewDevice(ctx, k, protocol.X509KeyEnc, "dev1", nil)
+	if err != nil {
+		fatal("DI: %v", err)
+	}
+	if err := w.Extend(ctx, d.Cred.GUID, k, "mfg", "own1", false); err != nil {
+		fatal("extend: %v", err)
+	}
+	h256, h384 := d.Hmacs()
+	_, terr := fdo.TO2(ctx, w.Transport(nil), nil, fdo.TO2Config{
+		Cred: d.Cred, HmacSha256: h256, HmacSha384: h384, Key: d.Key, AllowCredentialReuse: true,
+		Devmod:        serviceinfo.Devmod{Os: "linux", Arch: "amd64", Version: "lab", Device: "labdev", FileSep: "/", Bin: "amd64"},
+		DeviceModules: map[string]serviceinfo.DeviceModule{"fdo.wget": dev},
+		KeyExchange:   kex.ECDH256Suite, CipherSuite: kex.A128GcmCipher,
+	})
+	time.Sleep(30 * time.Millisecond)
+	got, rerr := os.ReadFile(filepath.Join(dest, "f.bin"))
+	switch {
+	case terr == nil && rerr != nil:
+		return "missing: TO2 succeeded but there is no file at the announced name"
+	case terr == nil && !bytes.Equal(got, file):
+		return fmt.Sprintf("content-differs: TO2 succeeded, destination holds %d bytes, the announced file has %d", len(got), len(file))
+	case terr != nil && rerr == nil:
+		return fmt.Sprintf("content-differs: TO2 failed (%v) but a file of %d bytes is at the announced name (equal to the announced file: %v)", terr, len(got), bytes.Equal(got, file))
+	}
+	if ents, _ := os.ReadDir(tmp); len(ents) != 0 && terr == nil {
 		return fmt.Sprintf("temp-left: %d temporary file(s) remain after a successful transfer", len(ents))
 	}
 	return ""
